@@ -128,14 +128,15 @@ theorem absPat_some {now : Int} {suffix : Col → Bool} {op : Cmp} {txt : List B
       obtain ⟨hc, ho⟩ := hp
       subst ho
       exact ⟨c, l, hm, hc, h⟩
-    | rel p n u => simp [isAbs] at hp
+    | rel p n u cs => simp [isAbs] at hp
     | num k => simp [isAbs] at hp
   · cases h
 
 theorem relPat_some {now : Int} {start plus : Bool} {txt : List BAtom} {s : Int}
     (h : relPat now start plus txt = some s) :
-    ∃ c o n u, BAtom.cmp c o (.rel plus n u) ∈ txt ∧ c.endsInTime = true ∧
-      (if start then o = Cmp.ge ∨ o = Cmp.gt else o = Cmp.lt ∨ o = Cmp.le) ∧ relGo now plus n u = s := by
+    ∃ c o n u cs, BAtom.cmp c o (.rel plus n u cs) ∈ txt ∧ c.endsInTime = true ∧
+      (if start then o = Cmp.ge ∨ o = Cmp.gt else o = Cmp.lt ∨ o = Cmp.le) ∧
+      (Rhs.rel plus n u cs).go now = some s := by
   unfold relPat at h
   split at h
   · rename_i c o r hf
@@ -144,12 +145,11 @@ theorem relPat_some {now : Int} {start plus : Bool} {txt : List BAtom} {s : Int}
     cases r with
     | lit l => simp [isRel] at hp
     | num k => simp [isRel] at hp
-    | rel p n u =>
+    | rel p n u cs =>
       simp only [isRel, Bool.and_eq_true, decide_eq_true_eq] at hp
       obtain ⟨⟨hc, hpl⟩, ho⟩ := hp
       subst hpl
-      simp only [Rhs.go, Option.some.injEq] at h
-      refine ⟨c, o, n, u, hm, hc, ?_, h⟩
+      refine ⟨c, o, n, u, cs, hm, hc, ?_, h⟩
       cases start <;> simpa using ho
   · cases h
 
@@ -175,9 +175,9 @@ theorem betweenPat_some {now : Int} {txt : List BAtom} {a b : Int}
           subst h1; subst h2
           exact ⟨c, l1, l2, hm, hp, hx, hy⟩
         · cases h
-      | rel p n u => simp [isBetween] at hp
+      | rel p n u cs => simp [isBetween] at hp
       | num k => simp [isBetween] at hp
-    | rel p n u => simp [isBetween] at hp
+    | rel p n u cs => simp [isBetween] at hp
     | num k => simp [isBetween] at hp
   · cases h
 
